@@ -101,7 +101,10 @@ def sample_params(rng, cls_name, max_period=20):
                 "input_value": _input(rng)}
     if cls_name == "MACD":
         fast = rng.randint(2, 8)
-        return {"fast_period": fast, "slow_period": fast + rng.randint(1, 10),
+        slow = fast + rng.randint(1, 10)
+        if rng.random() < 0.15:
+            fast, slow = slow, fast   # legal: the library orders the two periods itself
+        return {"fast_period": fast, "slow_period": slow,
                 "signal_period": rng.randint(2, 6), "input_value": _input(rng)}
     if cls_name == "StandardDeviationThreshold":
         return {"period": P(), "multiplier": rng.choice((0.5, 1.0, 2.0)),
